@@ -84,8 +84,49 @@ def regenerate():
             # an empty file: dependants then fail on the missing names instead of silently using a stale table
             write_if_changed(os.path.join(COQ, name), "(* translator failed on the current tree *)\n")
         else:
-            write_if_changed(os.path.join(COQ, name), p.stdout.decode("utf-8"))
+            text = p.stdout.decode("utf-8")
+            if name == "GoTables.v":
+                text = dynamic_tables(text)
+            write_if_changed(os.path.join(COQ, name), text)
     return errs
+
+
+DYN_TABLES = ["go_string_UnaryOperator", "go_string_BinaryOperator", "go_string_MatchOperator", "go_not_present"]
+
+
+def dynamic_tables(text):
+    """The exported operator methods of grammar/ast.go (String, NotPresentDisposition): when the static translator cannot read one
+    of them as a switch (a lookup table, a helper), the table is obtained by calling the method on every declared constant and on
+    values outside the range (harness/cmd/dyntables, built against the tree under test)."""
+    marker = ' : list (string * string) := [("<unrecognised>", "")].'
+    missing = [n for n in DYN_TABLES if ("Definition " + n + marker) in text]
+    if not missing:
+        return text
+    hdir = os.path.join(VERIF, "harness")
+    out = os.path.join(BIN, "dyntables")
+    cmd = ["go", "build", "-o", out]
+    try:
+        shutil.copy(os.path.join(REPO, "go.sum"), os.path.join(hdir, "go.sum"))
+        if REPO != "/repo":
+            mod = open(os.path.join(hdir, "go.mod")).read().replace("=> /repo", "=> " + REPO)
+            mf = os.path.join(BUILD, "harness_alt.mod")
+            open(mf, "w").write(mod)
+            shutil.copy(os.path.join(REPO, "go.sum"), os.path.join(BUILD, "harness_alt.sum"))
+            cmd += ["-modfile", mf]
+        rc, o = sh(cmd + ["./cmd/dyntables"], cwd=hdir, env=GOENV, timeout=600)
+        if rc != 0:
+            return text
+        p = subprocess.run([out], stdout=subprocess.PIPE, stderr=subprocess.PIPE, timeout=60)
+        if p.returncode != 0:
+            return text
+        dyn = p.stdout.decode("utf-8")
+    except Exception:
+        return text
+    for n in missing:
+        m = re.search(r"Definition %s : list \(string \* string\) := \[\n.*?\n\]\.\n" % re.escape(n), dyn, re.S)
+        if m:
+            text = text.replace("Definition " + n + marker + "\n", "(* read by calling the method on every declared constant: the source is no longer a switch the translator reads *)\n" + m.group(0))
+    return text
 
 
 def coq_makefile():
